@@ -1,12 +1,170 @@
 /-
-  C13 — `superpose()`.  Property theorems only (helper lemmas in Proofs/SuperposeDb*.lean).
+  C13 — `superpose()`: one rigid motion of the whole structure, optimal on the selection.  Property theorems only
+  (helper lemmas in Proofs/SuperposeDb*.lean).
+
+  `Model.SupDb.superpose kernel mob tar args` follows superpose.py statement by statement; the rotation kernel
+  `get_rotation_matrix(·,·,method)` is a parameter, so every theorem holds for every matrix the kernel may return.
+  What C06 proves about the kernel enters as an explicit hypothesis:
+    `KernelProper`  — the kernel returns proper rotations        (Props.C06.kabsch_proper / quaternion_proper),
+    `KernelOptimal` — … of minimal residual on the sets it is given (Props.C06.rmsd_minimal / quat_optimal).
+  The text round trip of the intersection route (`sql2pdb` → parse, C02) enters through `reexportSel … = .ok u`.
 -/
-import PdbVerif.Spec.C13
-import PdbVerif.Model.SuperposeDb
+import PdbVerif.Proofs.SuperposeDb
+
+set_option linter.unusedSectionVars false
+set_option linter.unusedVariables false
 
 namespace Props.C13
-open Py Model
+open Py Spec Model Model.SupDb
+open Spec.C13 (Motion MovedBy SameButPosition ident shared sharedPos UniqueIdent OptimalOn DisplacedCopy)
 
-theorem tmp_placeholder : True := trivial
+abbrev Kernel := List V → List V → Except Err (Mat3 Rat)
+
+/-- the kernel returns proper rotations only (C06: `kabsch_proper`, `quaternion_proper`) -/
+def KernelProper (kernel : Kernel) : Prop := ∀ P Q U, kernel P Q = .ok U → IsRotation U
+
+/-- the kernel returns a proper rotation of minimal residual on the point sets it is given (C06: `rmsd_minimal`, `quat_optimal`) -/
+def KernelOptimal (kernel : Kernel) : Prop := ∀ P Q U, kernel P Q = .ok U → OptimalRotation U P Q
+
+theorem KernelOptimal.proper {kernel : Kernel} (h : KernelOptimal kernel) : KernelProper kernel :=
+  fun P Q U hk => (h P Q U hk).1
+
+/-- **One rigid motion.**  Whatever the kernel returns, a successful call moves ALL atoms of the mobile structure by one and
+    the same map `p ↦ R·p + t` (and changes nothing else: `MovedBy`), where `R` is the kernel's matrix — a rigid motion as
+    soon as the kernel returns proper rotations. -/
+theorem one_rigid_motion {kernel : Kernel} {mob tar : Db} {a : Args} {out : Out}
+    (h : superpose kernel mob tar a = .ok out) :
+    ∃ m : Motion Rat, MovedBy m mob.rows out.mobile ∧ (KernelProper kernel → m.IsRigid) := by
+  obtain ⟨r⟩ := Proofs.SupDb.superpose_ok h
+  exact ⟨Proofs.SupCore.motionOf r.R r.P r.Q, r.hmobile, fun hk => hk _ _ _ r.hkernel⟩
+
+/-- **Only the mobile coordinates change.**  Atom count and order of the mobile structure are kept, every atom differs from
+    its former self at most in x, y, z, and the target is what it was. -/
+theorem only_mobile_xyz_changes {kernel : Kernel} {mob tar : Db} {a : Args} {out : Out}
+    (h : superpose kernel mob tar a = .ok out) :
+    out.mobile.length = mob.rows.length ∧ List.Forall₂ SameButPosition mob.rows out.mobile ∧ out.target = tar.rows := by
+  obtain ⟨r⟩ := Proofs.SupDb.superpose_ok h
+  refine ⟨by rw [r.hmobile]; simp, ?_, r.htarget⟩
+  rw [r.hmobile]
+  generalize mob.rows = l
+  induction l with
+  | nil => exact List.Forall₂.nil
+  | cons x l ih =>
+    refine List.Forall₂.cons ?_ ih
+    show Spec.C13.moveTo (Spec.C13.moveTo x _) (Spec.C13.pos x) = x
+    rw [Proofs.SupDb.moveTo_moveTo, Proofs.SupDb.moveTo_pos]
+
+/-- **Matched pairs = shared selected atoms (positional route).**  When the two selections list the same identities, the
+    pairs handed to the kernel are exactly the selected atoms present in both structures, matched by (chain, residue number,
+    residue name, atom name), with their own coordinates — provided identities are unique among the selected mobile atoms. -/
+theorem matched_pairs_are_shared_atoms {mob tar : List Atom} {sel : Atom → Bool}
+    (hid : (mob.filter sel).map atomId = (tar.filter sel).map atomId) (hu : UniqueIdent sel mob) :
+    ∃ P Q, matched mob tar sel = .ok (P, Q) ∧ P.zip Q = sharedPos sel mob tar ∧ P.length = Q.length :=
+  ⟨_, _, Proofs.SupDb.matched_positional hid hu⟩
+
+/-- **Matched pairs = shared selected atoms (intersection route).**  When the identity lists differ, the pairs handed to the
+    kernel are the identity-matched atoms of the two re-exported and re-read selections `u₁`, `u₂`; if these are text images of
+    the selected atoms (same identities — what C02's round trip gives), the pairs are, one for one, the text images of the
+    shared selected atoms: the same atoms, with the coordinates printed for them. -/
+theorem matched_pairs_are_shared_atoms_text {mob tar u₁ u₂ : List Atom} {sel : Atom → Bool}
+    (hid : (mob.filter sel).map atomId ≠ (tar.filter sel).map atomId)
+    (h₁ : reexportSel sel mob = .ok u₁) (h₂ : reexportSel sel tar = .ok u₂)
+    (t₁ : List.Forall₂ Proofs.SupDb.SameIdent (mob.filter sel) u₁) (t₂ : List.Forall₂ Proofs.SupDb.SameIdent (tar.filter sel) u₂) :
+    ∃ P Q, matched mob tar sel = .ok (P, Q) ∧ P.length = Q.length ∧
+      P.zip Q = (shared (fun _ => true) u₁ u₂).map (fun p => (Spec.C13.pos p.1, Spec.C13.pos p.2)) ∧
+      List.Forall₂ (fun p p' : Atom × Atom => ident p'.1 = ident p.1 ∧ ident p'.2 = ident p.2)
+        (shared sel mob tar) (shared (fun _ => true) u₁ u₂) := by
+  obtain ⟨P, Q, hm, hz, hl⟩ := Proofs.SupDb.matched_intersection hid h₁ h₂
+  exact ⟨P, Q, hm, hl, hz, Proofs.SupDb.shared_text_images t₁ t₂⟩
+
+/-- **Optimal on the matched pairs.**  Under `KernelOptimal`, the motion applied to the whole mobile structure brings the
+    matched mobile points closer (in RMSD) to their target partners than any other rigid motion does. -/
+theorem optimal_on_matched {kernel : Kernel} (hopt : KernelOptimal kernel) {mob tar : Db} {a : Args} {out : Out}
+    (h : superpose kernel mob tar a = .ok out) :
+    ∃ (sel : Atom → Bool) (P Q : List V) (m : Motion Rat),
+      selection a = .ok sel ∧ matched mob.rows tar.rows sel = .ok (P, Q) ∧
+      MovedBy m mob.rows out.mobile ∧ OptimalOn m (P.zip Q) := by
+  obtain ⟨r⟩ := Proofs.SupDb.superpose_ok h
+  refine ⟨r.sel, r.P, r.Q, _, r.hsel, r.hmatch, r.hmobile, ?_⟩
+  exact Proofs.SupCore.optimalOn_of_optimalRotation (Proofs.SupDb.matched_lengths r.hmatch) r.hne (hopt _ _ _ r.hkernel)
+
+/-- **Optimal on the shared selected atoms** (the property's wording), positional route: when both selections list the same,
+    unique identities, the RMSD between the selected atoms the two structures share is minimal after the call. -/
+theorem optimal_on_shared {kernel : Kernel} (hopt : KernelOptimal kernel) {mob tar : Db} {a : Args} {out : Out} {sel : Atom → Bool}
+    (hsel : selection a = .ok sel)
+    (hid : (mob.rows.filter sel).map atomId = (tar.rows.filter sel).map atomId) (hu : UniqueIdent sel mob.rows)
+    (h : superpose kernel mob tar a = .ok out) :
+    ∃ m : Motion Rat, MovedBy m mob.rows out.mobile ∧ OptimalOn m (sharedPos sel mob.rows tar.rows) := by
+  obtain ⟨sel', P, Q, m, hs', hm, hmv, ho⟩ := optimal_on_matched hopt h
+  rw [hsel] at hs'; injection hs' with hs'; subst hs'
+  obtain ⟨hm', hz, _⟩ := Proofs.SupDb.matched_positional hid hu
+  rw [hm'] at hm; injection hm with hm; injection hm with h1 h2
+  subst h1; subst h2
+  exact ⟨m, hmv, hz ▸ ho⟩
+
+/-- **A rigidly displaced copy lands back.**  If the mobile structure is the target moved by a rigid motion `d`, the selection
+    does not look at coordinates, and three selected atoms are not collinear (rank ≥ 2), the mobile structure ends exactly on
+    the target — all atoms, not only the selected ones. -/
+theorem displaced_copy_lands_back {kernel : Kernel} (hopt : KernelOptimal kernel) {mob tar : Db} {a : Args} {out : Out}
+    {d : Motion Rat} (hd : d.IsRigid) (hcopy : DisplacedCopy d tar.rows mob.rows)
+    (hpos : Proofs.SupDb.SelIgnoresPosition a.sel) {sel : Atom → Bool} (hsel : selection a = .ok sel)
+    (hrank : Proofs.SupBack.NonCollinear ((tar.rows.filter sel).map pos))
+    (h : superpose kernel mob tar a = .ok out) : out.mobile = tar.rows := by
+  obtain ⟨r⟩ := Proofs.SupDb.superpose_ok h
+  have hs' := r.hsel; rw [hsel] at hs'; injection hs' with hs'
+  have hsp := Proofs.SupDb.selection_ignores hsel hpos
+  unfold DisplacedCopy MovedBy at hcopy
+  -- the mobile selection is the image of the target selection
+  have hfil : mob.rows.filter sel = (tar.rows.filter sel).map (fun x => Spec.C13.moveTo x (d.apply (Spec.C13.pos x))) := by
+    rw [hcopy]; exact Proofs.SupDb.filter_map_moveTo sel hsp _ _
+  have hid : (mob.rows.filter sel).map atomId = (tar.rows.filter sel).map atomId := by
+    rw [hfil, List.map_map]
+    apply List.map_congr_left
+    intro x _
+    exact Proofs.SupDb.atomId_moveTo x _
+  have hm : matched mob.rows tar.rows sel = .ok ((mob.rows.filter sel).map pos, (tar.rows.filter sel).map pos) := by
+    unfold matched; simp [hid, pure, Except.pure]
+  have hPQ := r.hmatch; rw [← hs', hm] at hPQ; injection hPQ with hPQ; injection hPQ with hP hQ
+  have hPd : r.P = ((tar.rows.filter sel).map pos).map d.apply := by
+    rw [← hP, hfil, List.map_map, List.map_map]
+    apply List.map_congr_left
+    intro x _
+    exact Proofs.SupDb.pos_moveTo x _
+  have hne : (tar.rows.filter sel).map pos ≠ [] := by
+    intro h0; apply r.hne; rw [hPd, h0]; rfl
+  have hk := hopt _ _ _ r.hkernel
+  rw [hPd, ← hQ] at hk
+  rw [r.hmobile, hPd, ← hQ, hcopy, List.map_map]
+  conv_rhs => rw [← List.map_id tar.rows]
+  apply List.map_congr_left
+  intro x _
+  show Spec.C13.moveTo (Spec.C13.moveTo x _) (_ ) = x
+  rw [Proofs.SupDb.moveTo_moveTo]
+  have := Proofs.SupBack.lands_back hd hne hk hrank (Spec.C13.pos x)
+  rw [show Model.SupDb.pos (Spec.C13.moveTo x (d.apply (Spec.C13.pos x))) = d.apply (Spec.C13.pos x) from Proofs.SupDb.pos_moveTo x _]
+  rw [this]
+  exact Proofs.SupDb.moveTo_pos x
+
+/-- **No file unless export.**  Without `export` the call has no file effect; with it, exactly one file is written, named
+    `<mobile>_superposed_on_<target>.pdb` (as `exportName` forms it), holding the moved mobile structure. -/
+theorem no_file_unless_export {kernel : Kernel} {mob tar : Db} {a : Args} {out : Out}
+    (h : superpose kernel mob tar a = .ok out) :
+    (a.doExport = false → out.files = []) ∧
+    (a.doExport = true → ∃ mn tn lines, mob.pdbfile = some mn ∧ tar.pdbfile = some tn ∧ sql2pdb out.mobile = .ok lines ∧
+        out.files = [(exportName mn tn, lines)]) := by
+  obtain ⟨r⟩ := Proofs.SupDb.superpose_ok h
+  constructor
+  · intro he
+    have := r.hfiles; rw [he, Proofs.SupDb.exportFiles_off] at this
+    injection this with this; exact this.symm
+  · intro he
+    have := r.hfiles; rw [he] at this
+    exact Proofs.SupDb.exportFiles_on this
+
+/-- `only_backbone` together with an explicit `name` selection is rejected before anything is read or written -/
+theorem name_with_only_backbone_rejected (kernel : Kernel) (mob tar : Db) (a : Args)
+    (h1 : a.onlyBackbone = true) (h2 : a.nameGiven = true) : superpose kernel mob tar a = .error .valueError := by
+  unfold superpose selection
+  simp [h1, h2, bind, Except.bind, throw, throwThe, MonadExceptOf.throw]
 
 end Props.C13
